@@ -52,6 +52,102 @@ def consumer_path(cls: Any, payload: Any) -> list[tuple[str, str]]:
     return out
 
 
+H_TABLE = {"1/0/1": "5.001", "1/0/2": "9.001", "1/0/3": "16.000", "1/0/4": "1.001", "1/0/5": None}
+H_PAYLOADS = [DPTArray((0x80,)), DPTArray((0x0C, 0x1A)), DPTArray(tuple(b"Hello World!!!")), DPTBinary(1), DPTArray((0x7F, 0xFF)), DPTArray(()), DPTArray((1, 2, 3))]
+
+
+def history_events() -> list[tuple[str, int, bool]]:
+    return [(a, pi, resp) for a in H_TABLE for pi in range(len(H_PAYLOADS)) for resp in (False,)] + [(a, 0, True) for a in H_TABLE]
+
+
+def run_history(hist: tuple[int, ...], through_queue: bool) -> list[tuple[str, str]]:
+    """A history of group telegrams over five addresses (four typed, one untyped) through ONE GroupAddressDPT table (or the real
+    consumer queue): every step behaves as the stateless decode says, whatever came before."""
+    from xknx.dpt import DPTBase
+
+    evs = history_events()
+    viols: list[tuple[str, str]] = []
+    desc = [(evs[i][0], repr(H_PAYLOADS[evs[i][1]]), "response" if evs[i][2] else "write") for i in hist]
+
+    def expect(a: str, payload: Any) -> tuple[bool, Any]:
+        name = H_TABLE[a]
+        if name is None:
+            return False, None
+        cls = DPTBase.parse_transcoder(name)
+        try:
+            return True, cls.from_knx(payload)  # type: ignore[union-attr]
+        except (ConversionError, CouldNotParseTelegram):
+            return False, None
+
+    def mk(i: int) -> Telegram:
+        a, pi, resp = evs[i]
+        return Telegram(GroupAddress(a), payload=(GroupValueResponse if resp else GroupValueWrite)(H_PAYLOADS[pi]), source_address=IndividualAddress("1.1.1"))
+
+    if not through_queue:
+        table = GroupAddressDPT()
+        table.set({a: n for a, n in H_TABLE.items() if n})
+        for step, i in enumerate(hist):
+            tg = mk(i)
+            try:
+                table.set_decoded_data(tg)
+            except Exception as exc:  # noqa: BLE001
+                viols.append((exc_sig("eager-decode-escape-after-history" if step else "eager-decode-escape-first", exc), f"history {desc[: step + 1]}: {exc!r}"))
+                break
+            ok, val = expect(evs[i][0], H_PAYLOADS[evs[i][1]])
+            if ok != (tg.decoded_data is not None) or (ok and tg.decoded_data.value != val):
+                viols.append(("eager-decode-differs-after-history", f"history {desc[: step + 1]}: decoded_data={tg.decoded_data!r}, stateless decode gives {'a value ' + repr(val) if ok else 'nothing'}"))
+                break
+        return viols
+    from ..sim.core import CoreWorld
+
+    with CoreWorld(rate_limit=0) as w:
+        seen: list[Any] = []
+        w.xknx.group_address_dpt.set({a: n for a, n in H_TABLE.items() if n})
+        w.xknx.telegram_queue.register_telegram_received_cb(lambda t: seen.append(t))
+        w.start()
+        for i in hist:
+            w.incoming(mk(i))
+            w.run(0.01)
+        w.run(1.0)
+        if len(seen) != len(hist):
+            viols.append(("consumer-stops-after-history", f"history {desc}: {len(seen)} of {len(hist)} telegrams reached the callbacks; escapes={[(n, repr(e)) for n, e in w.task_escapes()]}"))
+        else:
+            for tg, i in zip(seen, hist):
+                ok, val = expect(evs[i][0], H_PAYLOADS[evs[i][1]])
+                if ok != (tg.decoded_data is not None) or (ok and tg.decoded_data.value != val):
+                    viols.append(("eager-decode-differs-after-history", f"history {desc} (queue): {tg.decoded_data!r} vs {val!r}"))
+                    break
+    return viols
+
+
+def w_history(k: int, n: int, depth: int) -> Part:
+    import itertools
+    import logging
+
+    logging.disable(logging.CRITICAL)
+    part = Part()
+    ne = len(history_events())
+    for j, hist in enumerate(itertools.product(range(ne), repeat=depth)):
+        if j % n != k:
+            continue
+        part.evaluations += 1
+        part.nontrivial += 1
+        for sig, detail in run_history(hist, False):
+            part.viol(sig, detail, ["history", list(hist), False], rank=(len(hist), hist))
+    # through the real consumer: all histories of length 2, and of length 3 over the events of the first three addresses
+    evs = history_events()
+    sub = [i for i, e in enumerate(evs) if e[0] in ("1/0/1", "1/0/2", "1/0/5") and e[1] in (0, 1, 4, 5)]
+    qh = list(itertools.product(range(ne), repeat=2)) + list(itertools.product(sub, repeat=3))
+    for j, hist in enumerate(qh):
+        if j % n != k:
+            continue
+        part.evaluations += 1
+        part.nontrivial += 1
+        for sig, detail in run_history(hist, True):
+            part.viol(sig, detail, ["history", list(hist), True], rank=(len(hist), hist))
+    return part
+
+
 def worker(ci: int, seed: int, thorough: bool) -> Part:
     import logging
 
@@ -100,15 +196,21 @@ def run(ctx: Ctx) -> None:
     ctx.rule = (
         "complete product: every concrete class of DPTBase.dpt_class_tree() x (all 64 DPTBinary + all DPTArray of length 0..2 "
         "+ for declared length L>=3 every octet value at every position over bases {00,FF,seed} + wrong lengths 3..16,20,255); "
+        "plus the stateful step in front of the consumer: ALL histories of 3 (thorough 4) group telegrams over 5 addresses (4 typed, 1 untyped) x 7 payloads (fitting, wrong length, wrong kind, "
+        "undecodable value) through ONE GroupAddressDPT table - no step raises and each gives what the stateless decode gives - and all histories of 2 (and 3 over a sub-alphabet) through the real "
+        "consumer queue, which must hand every telegram to the callbacks; "
         "non-trivial = payload passed validate_payload (value or ConversionError); cases distinct by construction"
     )
     ctx.bounds = {"classes": len(classes), "short_payloads_per_class": 64 + 1 + 256 + 65536, "thorough_pairs": ctx.thorough}
     ctx.assumptions = ["payloads longer than 2 octets are covered per position, not as a full product"]
     ctx.pmap(worker, [(i, ctx.seed, ctx.thorough) for i in range(len(classes))])
+    ctx.pmap(w_history, [(k, 32, 4 if ctx.thorough else 3) for k in range(32)])
     ctx.total.extra["classes"] = len(classes)
 
 
 def replay(case: Any) -> list[tuple[str, str]]:
+    if case[0] == "history":
+        return run_history(tuple(case[1]), bool(case[2]))
     name, p = case[0], case[1]
     cls = next(c for c in all_dpt_classes() if c.__name__ == name)
     payload = unpl(p)
